@@ -3,6 +3,7 @@
 From `_DerivedMetric.__init__`:
   * the validation steps in source order, each `raise ValueError(...)`:
         if not callable(metric)                                   -> "callable"
+        sig = inspect.signature(metric)                            -> "signature"  (TypeError for a non-callable)
         for p in parameters_for_transforms: if p in sig.parameters -> "reserved_in_signature"
         if transform not in transform_options                      -> "transform_option"
   * `sample_param_names=None` means "no sample parameters" (the `[]` default that is overwritten only if not None).
@@ -12,7 +13,8 @@ From `_DerivedMetric.__call__`:
     determined by how the dict is used afterwards (`functools.partial(self._metric_fn, **X)` = bound,
     `MetricFrame(..., sample_params=X)` = sample, `all_metrics.<m>(**X)` = transform) — not by its name;
   * that `sensitive_features` is keyword-only and required;
-  * that `self._metric_fn.__name__` is read (a callable without `__name__` raises AttributeError at call time).
+  * how the metric's `__name__` is obtained: a plain attribute read (a callable without `__name__` raises
+    AttributeError at call time) or `getattr(..., "__name__", <fallback>)`; any other shape is refused.
 Anything of another shape is refused."""
 import ast
 import os
@@ -52,6 +54,7 @@ def lift_init(init):
             checks.append("callable")
         elif isinstance(s, ast.Assign) and ast.unparse(s.value) == "inspect.signature(metric)" and isinstance(s.targets[0], ast.Name):
             sig_var = s.targets[0].id
+            checks.append("signature")        # inspect.signature(<non-callable>) raises TypeError: its position matters
         elif isinstance(s, ast.For):
             if not (ast.unparse(s.iter) == "parameters_for_transforms" and isinstance(s.target, ast.Name) and len(s.body) == 1
                     and isinstance(s.body[0], ast.If) and sig_var is not None
@@ -72,7 +75,7 @@ def lift_init(init):
                 raise U("sample_param_names default handling")
         else:
             raise U(f"__init__: unknown statement `{src[:80]}`")
-    if sorted(checks) != ["callable", "reserved_in_signature", "transform_option"]:
+    if sorted(checks) != ["callable", "reserved_in_signature", "signature", "transform_option"]:
         raise U(f"__init__ validation steps {checks}")
     if not none_means_empty:
         raise U("__init__: sample_param_names=None is not mapped to []")
@@ -138,8 +141,19 @@ def lift_call(call):
             continue
         default = dest(node.orelse)
         break
-    name_read = any(isinstance(n, ast.Attribute) and n.attr == "__name__" and ast.unparse(n.value) == "self._metric_fn"
-                    for n in ast.walk(call))
+    # how the metric's name is obtained: a plain `self._metric_fn.__name__` read (a callable without __name__ then
+    # raises AttributeError) or `getattr(self._metric_fn, "__name__", <fallback>)` (nameless callables accepted)
+    strict = [n for n in ast.walk(call) if isinstance(n, ast.Attribute) and isinstance(n.ctx, ast.Load) and n.attr == "__name__"
+              and ast.unparse(n.value) == "self._metric_fn"]
+    soft = [n for n in ast.walk(call) if isinstance(n, ast.Call) and isinstance(n.func, ast.Name) and n.func.id == "getattr"
+            and len(n.args) == 3 and ast.unparse(n.args[0]) == "self._metric_fn"
+            and isinstance(n.args[1], ast.Constant) and n.args[1].value == "__name__"]
+    if strict and not soft:
+        name_read = True
+    elif soft and not strict:
+        name_read = False
+    else:
+        raise U(f"__call__: the metric's __name__ is obtained in an unknown way (plain reads {len(strict)}, getattr with fallback {len(soft)})")
     return chain, default, name_read
 
 
@@ -179,7 +193,8 @@ def routeChain : List (String × String) := [{", ".join(f"({lstr(t)}, {lstr(d)})
 /-- ... and where every other name goes -/
 def routeDefault : String := {lstr(default)}
 
-/-- `self._metric_fn.__name__` is read when the function is called -/
+/-- the metric's name is a plain `self._metric_fn.__name__` read (true: a callable without `__name__` raises
+    AttributeError at call time) or `getattr(self._metric_fn, "__name__", <fallback>)` (false) -/
 def readsName : Bool := {"true" if name_read else "false"}
 
 end DerivedSpec
